@@ -136,7 +136,8 @@ Record fixes := {
   fx716 : bool;   (* estimate_u computes its blocked pairs with use_cache=False *)
   fx715 : bool;   (* realtime compare_records tracks the table created on the cached-SQL path (C18) *)
   fx718 : bool;   (* register_term_frequency_lookup(overwrite=True) over an existing lookup drops the derived tables *)
-  fxba : bool     (* blocking analysis (row counts, cumulative comparisons, n_largest_blocks) runs with use_cache=False *)
+  fxba : bool;    (* blocking analysis (row counts, cumulative comparisons, n_largest_blocks) runs with use_cache=False *)
+  fxco : bool     (* completeness_chart runs with use_cache=False *)
 }.
 
 Inductive event :=
@@ -623,7 +624,7 @@ Section Hash.
     | Profile =>
         [ IFreshUid; IExec FREQ (fsalt s) [RConcatInline] [] true; IExec PCT 0 [RReg 0] [] true; IExec TOPN 0 [RReg 0] [] true;
           IExec BOTN 0 [RReg 0] [] true; IDeleteTables ]
-    | Completeness => [ IFreshUid; IExec COMPL (fsalt s) [RConcatInline] [] true ]
+    | Completeness => [ IFreshUid; IExec COMPL (fsalt s) [RConcatInline] [] (negb (fxco (st_fix s))) ]
     | BlockingCount rule =>
         [ IFreshUid; IExec TOTAL (200 + rule + fsalt s) [RConcatInline] [] true; IDrop 0;
           IExec POSTF (rule + fsalt s) [RConcatInline] [] true; IDrop 1 ]
@@ -807,19 +808,21 @@ Inductive rt_settings := RObj (addr gen model : nat) | RDict (base conf : nat) |
 Record rt_params := {
   rp_flag_in_key : bool;          (* include_found_by_blocking_rules is part of the key (7.8) *)
   rp_configured_in_key : bool;    (* the key of a dict holding creator objects contains the configure() values *)
-  rp_liveness_called : bool       (* SQLCache.get CALLS the weak reference before trusting an id()-keyed entry *)
+  rp_liveness_called : bool;      (* SQLCache.get CALLS the weak reference before trusting an id()-keyed entry *)
+  rp_content_in_key : bool        (* the key of a SettingsCreator object carries a fingerprint of what it describes now
+                                     (a SettingsCreator is MUTABLE: id() alone keeps serving the SQL of its old content) *)
 }.
-Inductive rt_key := KAddr (a : nat) | KDict (base conf : nat) | KStr (p : nat).
+Inductive rt_key := KAddr (a m : nat) | KDict (base conf : nat) | KStr (p : nat).
 Definition rt_key_eqb (a b : rt_key) : bool :=
   match a, b with
-  | KAddr x, KAddr y => Nat.eqb x y
+  | KAddr x1 x2, KAddr y1 y2 => Nat.eqb x1 y1 && Nat.eqb x2 y2
   | KDict x1 x2, KDict y1 y2 => Nat.eqb x1 y1 && Nat.eqb x2 y2
   | KStr x, KStr y => Nat.eqb x y
   | _, _ => false
   end.
 Definition rt_key_of (P : rt_params) (s : rt_settings) : rt_key :=
   match s with
-  | RObj a _ _ => KAddr a                                             (* str(id(settings)) *)
+  | RObj a _ m => KAddr a (if rp_content_in_key P then m else 0)     (* str(id(settings)) [+ fingerprint] *)
   | RDict b c => KDict b (if rp_configured_in_key P then c else 0)     (* json.dumps(settings dict) *)
   | RStr p => KStr p
   end.
@@ -884,8 +887,14 @@ Fixpoint rt_wf (st : list (nat * nat * nat) * list nat) (evs : list rt_event) : 
   | [] => true
   | ev :: r => let '(st', ok) := rt_wf_step st ev in ok && rt_wf st' r
   end.
-Definition rt_good : rt_params := {| rp_flag_in_key := true; rp_configured_in_key := true; rp_liveness_called := true |}.
-Definition rt_params_ok (P : rt_params) : bool := rp_flag_in_key P && rp_configured_in_key P && rp_liveness_called P.
+Definition rt_good : rt_params :=
+  {| rp_flag_in_key := true; rp_configured_in_key := true; rp_liveness_called := true; rp_content_in_key := true |}.
+(* the tree before the fingerprint: sound only for objects that are never mutated (rt_wf) *)
+Definition rt_nofp : rt_params :=
+  {| rp_flag_in_key := true; rp_configured_in_key := true; rp_liveness_called := true; rp_content_in_key := false |}.
+(* the ingredients that make the cache transparent for EVERY sequence (liveness is then only hygiene) *)
+Definition rt_params_ok (P : rt_params) : bool := rp_flag_in_key P && rp_configured_in_key P && rp_content_in_key P.
+Definition rt_params_ok_unmutated (P : rt_params) : bool := rp_flag_in_key P && rp_configured_in_key P && rp_liveness_called P.
 (* the answer a call must give: the SQL of its own settings and flag *)
 Definition rt_expected (ev : rt_event) : option (sqlid * bool) :=
   match ev with RtCall s _ f => Some (rt_sql s, f) | RtDel _ => None end.
